@@ -340,8 +340,13 @@ func (en *Engine) FindFunc(key string) *ssa.Function {
 			}
 			k := FuncKey(fn)
 			if old, ok := en.funcsByKey[k]; ok {
-				// prefer the non-instantiated / first by name
-				if old.String() <= fn.String() {
+				// a generic function is verified at an instantiation the program uses (its body over type
+				// parameters has no layout); otherwise first by name
+				og, ng := isGenericFn(old), isGenericFn(fn)
+				if og == ng && old.String() <= fn.String() {
+					continue
+				}
+				if !og && ng {
 					continue
 				}
 			}
@@ -349,6 +354,16 @@ func (en *Engine) FindFunc(key string) *ssa.Function {
 		}
 	}
 	return en.funcsByKey[key]
+}
+
+// isGenericFn: the function (or, for a function literal, its enclosing function) still has type parameters.
+func isGenericFn(fn *ssa.Function) bool {
+	for f := fn; f != nil; f = f.Parent() {
+		if f.TypeParams().Len() > 0 && len(f.TypeArgs()) == 0 {
+			return true
+		}
+	}
+	return false
 }
 
 // FuncResult is the outcome of generating obligations for one function.
@@ -472,6 +487,13 @@ func (en *Engine) VerifyFunc(fc *FuncContract) (res *FuncResult) {
 	if fc.IsClosure {
 		for i := range fn.Params {
 			fc.Params = append(fc.Params[:i:i], fn.Params[i].Name())
+		}
+		// results of a function literal are ret0, ret1, … in its contract
+		if n := fn.Signature.Results().Len(); len(fc.Results) != n {
+			fc.Results = nil
+			for i := 0; i < n; i++ {
+				fc.Results = append(fc.Results, fmt.Sprintf("ret%d", i))
+			}
 		}
 	}
 	if len(fn.Params) < len(fc.Params) {
